@@ -170,3 +170,107 @@ contract(F, 'NetAddr._calc_bndl_dgram_size', props=('C06',),
                  sumb_step(eng.entry_params['elements'].extra['base'][0], st.env['__i0'].z)))},
          setup=lambda eng, st, params: st.pc.extend(bs_def(params['elements'].extra['base'][0])),
          policies=POL, axioms=[axioms], native=False)
+
+
+# ---- NetAddr._clump_bundle: packing elements into sub-bundles below a size limit (C06 clumping) -------------
+# second loop, per element (s = its predicted size, acc0 = accumulated size of the open clump before the pass):
+#   the open clump is closed and a new one opened iff  acc0 + s + 4 >= size;
+#   the element goes into the open clump (the new one when one was just opened), exactly once, in order;
+#   acc := (16 if a new clump was opened else acc0) + s + 4;
+# hence after every pass the open clump either stays below the limit (acc < size) or holds just the one element
+# that was put into a fresh clump (an element that does not fit anywhere on its own).
+from vf.pyvc.spec import Loop as _CLoop
+from vf.pyvc import values as _CVV
+EL_SIZE = z3.Function('clump_elem_size', z3.IntSort(), z3.IntSort())
+EL_VAL = z3.Function('clump_elem', z3.IntSort(), _CVV.Any)
+NEL = z3.Int('elist.len')
+
+
+def cl_new_list(eng, items, st):
+    if items != []:
+        return None
+    k = len([e for e in st.trace if e[0] == 'new-list'])
+    st.trace.append(('new-list', k))
+    if k == 0:
+        # elist: (predicted size, element) per element, in order
+        return V('seq', extra={'len': NEL, 'facts': [NEL >= 0], 'elist': True,
+                               'get': (lambda eng_, i, st_: vtuple([vint(EL_SIZE(i)), V('any', EL_VAL(i))]))})
+    return V('ref', cls='CBuf', oid='list!%d' % next(eng.counter), extra={'res': k == 1, 'truth': z3.Bool('open_clump_nonempty')})
+
+
+def cl_getattr(eng, obj, name, st, node):
+    if obj.k == 'seq' and obj.extra.get('elist') and name == 'append':
+        return [(st, V('func', py=('spec', lambda eng, a, kw, st, node: [(st, NONE)])))]
+    if obj.k == 'ref' and obj.cls == 'CBuf' and name == 'append':
+        def app(eng, args, kwargs, st, node, _o=obj):
+            st.trace.append(('res-append' if _o.extra['res'] else 'clump-append', _o, args[0]))
+            return [(st, NONE)]
+        return [(st, V('func', py=('spec', app)))]
+    return None
+
+
+def cl_since(trace, ordinal):
+    idx = -1
+    for i, e in enumerate(trace):
+        if e[0] == 'loop-head' and e[1] == ordinal:
+            idx = i
+    return trace[idx + 1:] if idx >= 0 else None
+
+
+def cl_remember(eng, st):
+    st.ghost = dict(st.ghost)
+    st.ghost['acc_at_head'] = st.env['acc_size'].z
+    st.ghost['clump_at_head'] = st.env['clump']
+
+
+def cl_first(c, L):
+    return z3.BoolVal(True)
+
+
+def cl_pass(c, L):
+    ev = cl_since(c.trace, 1)
+    acc1 = c.st.env['acc_size'].z
+    base = acc1 >= 16
+    if not ev:
+        return base
+    ev = [e for e in ev if e[0] in ('res-append', 'clump-append', 'new-list')]
+    acc0 = c.st.ghost['acc_at_head']
+    old = c.st.ghost['clump_at_head']
+    i = L.i - 1
+    s = EL_SIZE(i)
+    kinds = [e[0] for e in ev]
+    cur = c.st.env['clump']
+    if kinds == ['clump-append']:
+        ok = ev[0][1] is old and cur is old and ev[0][2].k == 'any'
+        if not ok:
+            return z3.BoolVal(False)
+        return z3.And(base, acc0 + s + 4 < c.size, ev[0][2].z == EL_VAL(i), acc1 == acc0 + s + 4,
+                      acc1 < c.size)                                        # stays below the limit
+    if kinds == ['res-append', 'new-list', 'clump-append']:
+        ok = (ev[0][2] is old and ev[2][1] is cur and cur is not old and ev[2][2].k == 'any')   # old closed, new opened
+        if not ok:
+            return z3.BoolVal(False)
+        return z3.And(base, acc0 + s + 4 >= c.size, ev[2][2].z == EL_VAL(i), acc1 == 16 + s + 4)   # alone in a fresh clump
+    return z3.BoolVal(False)
+
+
+def clump_kind(eng, name):
+    return V('ref', cls='CBuf', oid='open-clump', extra={'res': False, 'truth': z3.Bool('open_clump_nonempty')})
+
+
+contract(F, 'NetAddr._clump_bundle', props=('C06',),
+         params={'self': 'self', 'elements': (lambda eng, name: V('seq', extra={
+             'len': NEL, 'facts': [NEL >= 0], 'get': (lambda eng_, i, st_: V('any', EL_VAL(i)))})), 'size': 'int'},
+         requires=lambda c: z3.And(c.size > 20, NEL >= 0, z3.ForAll([z3.Int('k')], EL_SIZE(z3.Int('k')) >= 0)),
+         raises={'ValueError': None, 'TypeError': None, 'IndexError': None},
+         ensures=[],
+         loops={0: _CLoop(inv=cl_first, kinds={'e': 'any'}),
+                1: _CLoop(inv=cl_pass, kinds={'acc_size': 'int', 's': 'int', 'e': 'any', 'clump': clump_kind},
+                          havoc_hook=cl_remember)},
+         fields={'NetAddr': {}, 'CBuf': {}},
+         hooks={'new_list': cl_new_list, 'getattr': cl_getattr},
+         policies={'NetAddr._calc_msg_dgram_size': (lambda eng, selfv, args, kwargs, st, node: [(st, vint(eng.fresh('sz', z3.IntSort())))]),
+                   'NetAddr._calc_bndl_dgram_size': (lambda eng, selfv, args, kwargs, st, node: [(st, vint(eng.fresh('sz', z3.IntSort())))])},
+         class_modules={'NetAddr': F, 'CBuf': F}, native=False,
+         note='the first loop (sizing every element through the sizing functions, proved above) is executed with the '
+              'element list abstracted to (size_i, element_i); sizes are non-negative')
